@@ -4,7 +4,7 @@ from .py2coq import Fn, Z, B
 from . import py2coq, core
 from . import futb_harness as H
 
-PSTATE = ['PMissing', 'PShutdown', 'PNoConn', 'PBusy', 'PFail', 'PSendFail', 'PHealthy']
+PSTATE = ['PMissing', 'PShutdown', 'PNoConn', 'PBusy', 'PFail', 'PSendFail', 'PHealthy', 'PNoConnSlow']
 DECISION = ['DRetry', 'DRethrow', 'DIgnore', 'DNextHost']
 EKIND = ['KReadTimeout', 'KWriteTimeout', 'KUnavailable', 'KOverloaded', 'KBootstrapping', 'KTruncate', 'KServerError',
          'KConnExc', 'KConnShutdown']
@@ -83,7 +83,8 @@ def config_term(sc):
     script = '[' + '; '.join('(%s, %s)' % (DECISION[d], optz(c)) for d, c in sc['script']) + ']'
     known = '[' + '; '.join('(%s, %s)' % (z(p[0]), ps_term(p)) for p in sc.get('known', [])) + ']'
     fps = 'None' if sc['ps'] is None else '(Some %s)' % ps_term(sc['ps'])
-    return '{| pol := scripted %s; fut_ps := %s; known := %s; pv := %s; tgt := %s |}' % (script, fps, known, z(sc['pv']), optz(sc.get('target')))
+    return '{| pol := scripted %s; fut_ps := %s; known := %s; pv := %s; tgt := %s; inline_retry := %s |}' % (script, fps, known, z(sc['pv']), optz(sc.get('target')),
+                                                                                              'true' if sc.get('inline') else 'false')
 
 
 def init_term(sc):
@@ -165,6 +166,10 @@ def random_scenario(rng, weights=None, max_hosts=4, max_ops=14, env_changes=True
         sc['markers'] = True          # statement with a bind marker (other branch of PreparedStatement.from_message)
     if sc['target'] is None and rng.random() < 0.12:
         sc['analytics'] = {'master': rng.choice([None] + list(range(n)))}
+    if rng.random() < 0.15:
+        sc['timeout'] = True
+        sc['pools'] = [7 if (p != 6 and rng.random() < 0.5) else p for p in sc['pools']]
+    sc['inline'] = rng.random() < 0.25      # executor-first schedule of retries
     sc['metrics'] = rng.random() < 0.4    # Cluster(metrics_enabled=True)
     sc['nids'] = rng.choice([1, 1, 2, 4, 300])   # size of the connections' stream-id deque (id 0 first, FIFO recycling)
     if rng.random() < 0.5:
